@@ -259,11 +259,20 @@ def diff(e, x, cache=None):
     cache = cache if cache is not None else {}
     xid = x.get_id()
 
+    ZERO = z3.RealVal(0)
+
+    def zero(v):
+        return z3.is_rational_value(v) and v.numerator_as_long() == 0
+
     def D(t):
         i = t.get_id()
         if i in cache:
             return cache[i]
         r = _D(t)
+        if not zero(r):
+            rs = z3.simplify(r)
+            if zero(rs):
+                r = ZERO
         cache[i] = r
         return r
 
@@ -301,7 +310,12 @@ def diff(e, x, cache=None):
             return z3.Sum(out) if out else z3.RealVal(0)
         if k == z3.Z3_OP_DIV:
             n, d = ch
-            return (D(n) * d - n * D(d)) / (d * d)
+            dn, dd = D(n), D(d)
+            if zero(dn) and zero(dd):
+                return ZERO
+            if zero(dd):
+                return dn / d
+            return (dn * d - n * dd) / (d * d)
         if k == z3.Z3_OP_POWER and z3.is_rational_value(ch[1]):
             q = ch[1]
             return q * (ch[0] ** (q - 1)) * D(ch[0])
@@ -312,6 +326,8 @@ def diff(e, x, cache=None):
         if k == z3.Z3_OP_UNINTERPRETED:
             n = t.decl().name()
             u = ch[0]
+            if all(zero(D(c)) for c in ch):
+                return ZERO  # constant argument(s): no 0/x artefacts
             if n == "exp":
                 return t * D(u)
             if n == "log":
@@ -333,7 +349,6 @@ def diff(e, x, cache=None):
             if n == "pow":
                 b, ex = ch
                 db, de = D(b), D(ex)
-                zero = lambda v: z3.is_rational_value(v) and _q(v) == 0
                 if zero(z3.simplify(de)):
                     return ex * UF["pow"](b, ex - 1) * db
                 return t * (de * UF["log"](b) + ex * db / b)
